@@ -85,3 +85,50 @@ class SingleRun:
         small, runs = _shrink.shrink(sched, sig, runner, budget_s=budget_s)
         return {"hashseed": h, "sched": small, "shrink_runs": runs,
                 "ops_before": len(sched["ops"]), "ops_after": len(small["ops"])}
+
+
+class CaseInWorker:
+    """multi-run cases whose runs share one hash seed: generated, executed and compared inside
+    the worker (module functions gen_case(gen) and exec_case(case, run_fn))."""
+
+    def __init__(self, mod):
+        self.mod = mod
+
+    def _outcome(self, i, summ, h, gen=None, case=None):
+        out = outcome_from_summary(i, summ, self.mod.ID)
+        out["hashseed"] = h
+        out["gen"] = gen
+        out["case"] = case if case is not None else summ.get("case")
+        out["runs"] = summ.get("runs", 1)
+        out["sample"] = summ.get("sample")
+        out["visible"] = summ.get("visible")
+        out["sched"] = None
+        return out
+
+    def run_case(self, ctx, i):
+        gen = {"prop": self.mod.ID, "tier": ctx.tier, "seed": ctx.seed, "i": i}
+        h = getattr(self.mod, "hashseed_for", hashseed_for)(i)
+        summ = ctx.farm.run({"t": "case", "prop": self.mod.ID, "gen": gen, "echo_case": i < 3}, h)
+        return self._outcome(i, summ, h, gen=gen)
+
+    def replay(self, ctx, obj):
+        summ = ctx.farm.run({"t": "case", "prop": self.mod.ID, "case": obj["case_obj"]}, obj["hashseed"])
+        return self._outcome(obj.get("case", -1), summ, obj["hashseed"], case=obj["case_obj"])
+
+    def unminimised(self, o):
+        case = o.get("case")
+        if case is None:
+            case = self.mod.gen_case(o["gen"])
+        return {"hashseed": o["hashseed"], "case_obj": case}
+
+    def minimise(self, ctx, outcome, sig, budget_s):
+        case = outcome.get("case")
+        if case is None:
+            case = self.mod.gen_case(outcome["gen"])
+        h = outcome["hashseed"]
+        if hasattr(self.mod, "shrink_case"):
+            def runner(c):
+                return ctx.farm.run({"t": "case", "prop": self.mod.ID, "case": c}, h)
+
+            case = self.mod.shrink_case(case, sig, runner, budget_s)
+        return {"hashseed": h, "case_obj": case}
